@@ -482,6 +482,12 @@ func runC14Use(c *Ctx) {
 					rf, idx := rangePart(cc.key)
 					if isDiag && cc.table == pr.decl && rf == pr.call && idx == 1 {
 						relevant = true
+						// the loop over the call site's table visits every entry: it is left only at its header
+						if nx, ok := cc.key.(*ssa.Extract).Tuple.(*ssa.Next); ok {
+							if ex := loopSideExit(nx.Block()); ex != nil {
+								extras = append(extras, "the loop over "+pr.call+" is left from inside its body at "+p.Pos(exitPos(ex))+", so the "+pr.what+"s after that point are never looked up")
+							}
+						}
 						if !outcome {
 							lookupFail = true
 						} else {
@@ -960,6 +966,7 @@ func runC14Type(c *Ctx) {
 			construct := fmt.Sprintf("(*RuleExpression).checkWorkflowCall|typed input check#%d", n)
 			f, base := fieldLoad(call.Call.Value)
 			okRecv := false
+			var sideExit *ssa.BasicBlock
 			if f == "ReusableWorkflowMetadataInput.Type" {
 				// base is the element looked up in m.Inputs with the range key of c.Inputs
 				if ex, ok := base.(*ssa.Extract); ok {
@@ -968,6 +975,9 @@ func runC14Type(c *Ctx) {
 						rf, idx := rangePart(lk.Index)
 						if tf == "ReusableWorkflowMetadata.Inputs" && rf == "WorkflowCall.Inputs" && idx == 1 {
 							okRecv = true
+							if nx, ok := lk.Index.(*ssa.Extract).Tuple.(*ssa.Next); ok {
+								sideExit = loopSideExit(nx.Block())
+							}
 						}
 					}
 				}
@@ -977,6 +987,8 @@ func runC14Type(c *Ctx) {
 				c.bad(construct, in.Pos(), "the diagnostic is emitted when the value IS assignable")
 			case !okRecv:
 				c.bad(construct, in.Pos(), "the declared type does not come from the callee's input of the same name")
+			case sideExit != nil:
+				c.bad(construct, exitPos(sideExit), "the loop over the inputs of the call is left from inside its body (break or return at "+p.Pos(exitPos(sideExit))+"): the values of the inputs behind that point are not checked against their declared types")
 			default:
 				c.ok(construct, in.Pos(), "reported iff the declared type of the same-named input does not accept the value's type")
 			}
